@@ -81,3 +81,32 @@ fn c07_token_expiring_before_creation() {
     let _ = c.update(Duration::from_millis(16));
     assert!(c.is_disconnected() || c.is_connecting());
 }
+
+/// C16 (U11 roundtrip_keepalive_disconnect_denied): a sealed packet with an empty body and sequence number 0 is
+/// 1 + 0 + 16 = 17 bytes long, but decode refused everything below 18 bytes: the very first ConnectionDenied a server
+/// ever sends (global sequence 0) cannot be decoded by the client, which keeps requesting instead of learning the denial.
+#[test]
+fn c16_sealed_empty_packet_with_sequence_zero_roundtrips() {
+    use renetcode::{NetcodeServer, ServerAuthentication, ServerConfig, ServerResult};
+    let key = [7u8; 32];
+    let addr: std::net::SocketAddr = "127.0.0.1:5000".parse().unwrap();
+    let mut server = NetcodeServer::new(ServerConfig {
+        current_time: Duration::ZERO,
+        max_clients: 0, // full from the start: every request is denied
+        protocol_id: 7,
+        public_addresses: vec![addr],
+        authentication: ServerAuthentication::Secure { private_key: key },
+    });
+    let token = ConnectToken::generate(Duration::ZERO, 7, 300, 1, 15, vec![addr], None, &key).unwrap();
+    let mut c = NetcodeClient::new(Duration::ZERO, ClientAuthentication::Secure { connect_token: token }).unwrap();
+    let (request, _) = c.update(Duration::from_millis(300)).expect("client sends a connection request");
+    let mut request = request.to_vec();
+    let client_addr: std::net::SocketAddr = "127.0.0.1:6000".parse().unwrap();
+    let mut denied = match server.process_packet(client_addr, &mut request) {
+        ServerResult::PacketToSend { payload, .. } => payload.to_vec(),
+        other => panic!("expected a denial packet, got {:?}", other),
+    };
+    assert_eq!(denied.len(), 17);
+    c.process_packet(&mut denied);
+    assert_eq!(c.disconnect_reason(), Some(renetcode::DisconnectReason::ConnectionDenied));
+}
